@@ -104,6 +104,10 @@ def _py_kinds(text: str) -> list:
 					kind = 'Closure'
 				out.append((n.name, kind))
 				walk(n.body, 'def')
+			else:
+				# a compound statement opens no scope: what it holds belongs to what encloses it
+				for field in ('body', 'orelse', 'finalbody', 'handlers'):
+					walk([c for c in getattr(n, field, []) if isinstance(c, ast.AST)], parent)
 	walk(ast.parse(text).body, 'module')
 	return out
 
